@@ -2,8 +2,12 @@
    The full statement is FALSE of the faithful model and of the code (KNOWN FINDING, DESIGN.md 7):
    C15_refuted exhibits a run in which the detector panics although the only edge of the reported
    chain belongs to an ask that has already been answered.  Proved: soundness with respect to the
-   tracked graph, and that callers outside a hook are never tracked. *)
-From RS Require Import Tactics Graph C14.
+   tracked graph; every edge of the tracked graph, in every reachable state, is an operation begun
+   by the running hook of the key's actor that has not yet RETURNED to that hook (it may have been
+   answered - that is exactly the finding); callers outside a hook are never tracked; and no
+   residue: once every operation has returned the graph is empty, an actor whose hook awaits
+   nothing has no edge.  Uniqueness of ids (fewer than 2^64 - 1 spawns) is a premise. *)
+From RS Require Import Tactics Graph C14 GraphInv.
 
 (* a detection panic implies a chain of TRACKED edges from the asked actor back to the asker
    (or a self-ask) - sound modulo edges whose ask was answered but whose asker was not yet resumed *)
@@ -18,6 +22,25 @@ Qed.
 Theorem C15_untracked : forall s k x,
   dd_check s k None x = DDNone /\ (f_dd (s_feat s) = false -> forall c, dd_check s k c x = DDNone).
 Proof. exact dd_check_untracked. Qed.
+
+(* every edge (in particular every edge of a reported cycle, which follows g_get) belongs to an
+   operation that its caller's hook has begun and that has not yet returned to it *)
+Theorem C15_every_edge_is_unreturned_ask : forall f ls, few (run f ls) -> forall cid tid,
+  g_get (s_graph (run f ls)) cid = Some tid ->
+  exists o p b xb xt, edge_wit (run f ls) cid tid o p b xb xt.
+Proof. intros f ls Hfew cid tid H. apply (run_edge_is_awaited f ls Hfew), g_get_some_in, H. Qed.
+
+(* no residue *)
+Theorem C15_no_residue : forall f ls, few (run f ls) ->
+  (forall o p, get_op (run f ls) o = Some p -> is_done (o_ph p) = true) -> s_graph (run f ls) = [].
+Proof. exact run_no_residue. Qed.
+
+Theorem C15_idle_actor_has_no_edge : forall f ls, few (run f ls) -> forall b xb tid,
+  get_actor (run f ls) b = Some xb -> a_hop xb = None -> ~ In (a_id xb, tid) (s_graph (run f ls)).
+Proof. exact run_no_edge_when_not_awaiting. Qed.
+
+Theorem C15_graph_functional : forall f ls, few (run f ls) -> NoDup (map fst (s_graph (run f ls))).
+Proof. exact run_graph_functional. Qed.
 
 (* the witness: A's handler asks B; B answers (reply sent, A not yet resumed); B's next handler asks
    A and the detector panics on the stale edge A -> B *)
@@ -40,7 +63,21 @@ Theorem C15_refuted :
              s_graph (run dd_feats (removelast ls)) = [(1, 2)]%N.
 Proof. exists c15_witness. vm_compute. repeat split; tauto. Qed.
 
+(* non-vacuity of no-residue: the same run continued - A polls its answered ask (edge removed), and
+   the graph is empty again once all four operations have returned *)
+Example C15_residue_example :
+  s_graph (run dd_feats (firstn 14 c15_witness)) = [(1, 2)]%N /\
+  s_graph (run dd_feats (firstn 14 c15_witness ++ [LPoll 1])) = [] /\
+  few (run dd_feats (firstn 14 c15_witness ++ [LPoll 1])).
+Proof. vm_compute. repeat split; reflexivity. Qed.
+
 Check C15_sound_wrt_tracked_graph_partial. Check C15_untracked. Check C15_refuted.
+Check C15_every_edge_is_unreturned_ask. Check C15_no_residue. Check C15_idle_actor_has_no_edge. Check C15_graph_functional.
+Print Assumptions C15_every_edge_is_unreturned_ask.
+Print Assumptions C15_no_residue.
+Print Assumptions C15_idle_actor_has_no_edge.
+Print Assumptions C15_graph_functional.
+Print Assumptions C15_residue_example.
 Print Assumptions C15_sound_wrt_tracked_graph_partial.
 Print Assumptions C15_untracked.
 Print Assumptions C15_refuted.
